@@ -189,6 +189,8 @@ fn encode_parallel(
         .into_par_iter()
         .map(|fragment_index| -> Result<Vec<u8>, EncodingError> {
             let fragment = split.get(fragment_index).expect("invalid fragment index");
+            #[cfg(dds_verif)]
+            crate::verif_hook::fragment(fragment_index as usize, 0);
             parallel_progress.check_cancelled()?;
 
             // allocate exactly the right amount of memory
@@ -204,6 +206,8 @@ fn encode_parallel(
             // reporting progress or checking for cancellation is not necessary.
             encode(&mut buffer, fragment, format, None, &options)?;
 
+            #[cfg(dds_verif)]
+            crate::verif_hook::fragment(fragment_index as usize, 1);
             parallel_progress.check_cancelled()?;
             parallel_progress.submit(fragment.height() as u64);
 
